@@ -32,8 +32,64 @@ Proof. unfold appended. induction tr as [|l tr IH]; cbn; [reflexivity|]. destruc
 Lemma filter_env_remove tr : existsb is_remove (filter is_env tr) = existsb is_remove tr.
 Proof. induction tr as [|l tr IH]; cbn; [reflexivity|]. destruct l; cbn; rewrite ?IH; reflexivity. Qed.
 
-Lemma spec_init_fresh c0 tail : sDl (spec_init c0 tail) = [] /\ sRemoved (spec_init c0 tail) = false.
-Proof. split; reflexivity. Qed.
+Lemma wanted_reopen rm h : wanted true rm h = appended h.
+Proof. revert rm. unfold appended. induction h as [|l h IH]; intros rm; cbn; [reflexivity|]. destruct l; cbn; rewrite ?IH; reflexivity. Qed.
+Lemma filter_env_wanted ro tr : forall rm, wanted ro rm (filter is_env tr) = wanted ro rm tr.
+Proof. induction tr as [|l tr IH]; intros rm; cbn; [reflexivity|]. destruct l; cbn; rewrite ?IH; reflexivity. Qed.
+Lemma wanted_snoc ro tr l : forall rm, wanted ro rm (tr ++ [l]) =
+  wanted ro rm tr ++ match l with LAppend b => if negb ro && (rm || existsb is_remove tr) then [] else b | _ => [] end.
+Proof.
+  induction tr as [|x tr IH]; intros rm; cbn.
+  - destruct l; cbn; rewrite ?app_nil_r, ?orb_false_r; reflexivity.
+  - destruct x; cbn; rewrite ?IH, ?orb_true_r, <- ?app_assoc; cbn; try reflexivity.
+Qed.
+
+(* ---- the first incarnation along a run ---- *)
+Lemma removed_b_step e l e' : estep e l e' -> removed_b e' = removed_b e || is_remove l.
+Proof.
+  intros H. unfold removed_b. rewrite (estep_past _ _ _ H). destruct l; cbn; rewrite ?app_nil_r, ?orb_false_r; try reflexivity.
+  destruct (past e); reflexivity.
+Qed.
+Lemma content0_step e l e' : estep e l e' ->
+  content e' 0 = content e 0 ++ match l with LAppend b => if removed_b e then [] else b | _ => [] end.
+Proof.
+  intros H. unfold removed_b. destruct (past e) as [|c0 ps] eqn:Pa.
+  - (* inode 0 is the file at the path, or nothing exists yet *)
+    inversion H; subst; unfold content, curc; cbn [past cur]; rewrite Pa; cbn; rewrite ?H0, ?app_nil_r; reflexivity.
+  - assert (0 < length (past e)) as L by (rewrite Pa; cbn; lia).
+    assert (valid_fd e (Some (0, 0))) as V by (split; [left; exact L|lia]).
+    destruct (estep_fd _ _ _ _ _ H V) as (_ & _ & _ & _ & C). rewrite (C L). destruct l; rewrite app_nil_r; reflexivity.
+Qed.
+
+Section Track.
+Context {S : Type}.
+Variable step : S -> label -> S -> Prop.
+Variable ok : S -> label -> Prop.
+Variable envof : S -> env.
+Hypothesis step_env : forall s l s', step s l s' ->
+  estep (envof s) l (envof s') \/
+  (envof s' = envof s /\ match l with LAppend _ | LRemove | LCreate => False | _ => True end).
+
+Lemma track s0 tr s : run step ok s0 tr s ->
+  content (envof s) 0 = content (envof s0) 0 ++ wanted false (removed_b (envof s0)) tr /\
+  removed_b (envof s) = removed_b (envof s0) || existsb is_remove tr.
+Proof.
+  intros R. induction R as [|s0 tr s1 l s2 R [IH1 IH2] Ok St].
+  - cbn. rewrite app_nil_r, orb_false_r. auto.
+  - rewrite wanted_snoc, existsb_app. cbn [existsb negb andb]. rewrite orb_false_r.
+    destruct (step_env _ _ _ St) as [E|[E Hl]].
+    + rewrite (content0_step _ _ _ E), (removed_b_step _ _ _ E), IH1, IH2, <- app_assoc. split; [|symmetry; apply orb_assoc].
+      destruct l; reflexivity.
+    + rewrite E, IH1, IH2. destruct l; try contradiction; cbn; rewrite ?app_nil_r, ?orb_false_r; auto.
+Qed.
+End Track.
+
+Lemma nstep_env ro rp s l s' : nstep ro rp s l s' ->
+  estep (nenv s) l (nenv s') \/ (nenv s' = nenv s /\ match l with LAppend _ | LRemove | LCreate => False | _ => True end).
+Proof. intros St. inversion St; subst; cbn [nenv]; auto. Qed.
+Lemma pstep_env ro rp s l s' : pstep ro rp s l s' ->
+  estep (penv s) l (penv s') \/ (penv s' = penv s /\ match l with LAppend _ | LRemove | LCreate => False | _ => True end).
+Proof. intros St. inversion St; subst; cbn [penv]; auto. destruct (rb s <=? sz); cbn [penv]; auto. Qed.
 
 Section OfSpec.
 Variable i : cin.
@@ -41,7 +97,7 @@ Variable tr : list label.
 Variable sp : spec.
 Hypothesis Hrun : spec_run (i_reopen i) (spec_init (i_c0 i) (i_tail i)) tr = Some sp.
 Hypothesis Hhist : i_hist i = filter is_env tr.
-Hypothesis Hall : sDl sp = sE sp.                                      (* quiescent: everything delivered *)
+Hypothesis Hall : sDl sp = expected i.                                  (* quiescent: everything that has to be delivered was *)
 Hypothesis Hend : sEnded sp = negb (i_reopen i) && sRemoved sp.         (* ended iff it had to *)
 
 Let term : N := if sEnded sp then 1%N else 0%N.
@@ -54,39 +110,56 @@ Qed.
 
 Lemma check_of_spec : C15_check i (sDl sp, term, tr) = true.
 Proof.
-  unfold C15_check. rewrite Hhist, labels_eqb_refl, Hrun. destruct (spec_run_acc _ _ _ _ Hrun) as (A & _ & _).
-  cbn in A. rewrite A, bytes_eqb_refl. cbn [andb]. rewrite <- A, Hall, bytes_eqb_refl, term_expected, N.eqb_refl. cbn [andb].
+  destruct (spec_run_acc _ _ _ _ Hrun) as (A & _ & _). cbn in A.
+  assert (data_of tr = expected i) as A2 by (rewrite <- Hall; symmetry; exact A).
+  unfold C15_check. rewrite Hall, Hhist, labels_eqb_refl, Hrun, A2, !bytes_eqb_refl. cbn [andb].
+  rewrite term_expected, N.eqb_refl. cbn [andb].
   rewrite <- term_expected. unfold term. destruct (sEnded sp); reflexivity.
 Qed.
 
 Lemma model_of_spec : obs_eqb (model i) (sDl sp, term, tr) = true.
-Proof.
-  unfold model, obs_eqb. rewrite term_expected, N.eqb_refl, andb_true_r. apply bytes_eqb_eq.
-  unfold expected. destruct (spec_run_acc _ _ _ _ Hrun) as (_ & B & _).
-  rewrite Hall, B, Hhist. fold (appended (filter is_env tr)). rewrite filter_env_appended. reflexivity.
-Qed.
+Proof. unfold model, obs_eqb. rewrite term_expected, N.eqb_refl, andb_true_r, Hall. apply bytes_eqb_refl. Qed.
 End OfSpec.
 
-(* ---- instantiation: notify ---- *)
+(* ---- instantiation ---- *)
+Definition nended (s : nstate) : bool := match npcs s with NEnded => true | _ => false end.
+Definition pended (s : pstate) : bool := match ppcs s with PEnded => true | _ => false end.
+Definition termN (b : bool) : N := if b then 1%N else 0%N.
+
+(* quiescence [pre ++ delivered = want reopen env] gives the functional projection *)
+Lemma expected_of_want reopen poll c0 tail tr (e : env) del :
+  (reopen = true -> sE (spec_init c0 tail) ++ appended tr = skipn (length (pre_of c0 tail)) (all e)) ->
+  (reopen = false -> content e 0 = match c0 with Some c => c | None => [] end ++ wanted false false tr) ->
+  pre_of c0 tail ++ del = want reopen e ->
+  del = expected (mkcin poll reopen tail c0 (filter is_env tr)).
+Proof.
+  intros Ht Hf Hq. unfold expected. cbn [i_reopen i_c0 i_tail i_hist]. rewrite filter_env_wanted.
+  rewrite <- (skipn_pre (pre_of c0 tail) del), Hq. destruct reopen; unfold want.
+  - rewrite wanted_reopen. symmetry. apply Ht. reflexivity.
+  - rewrite (Hf eq_refl). unfold spec_init, pre_of. cbn [sE]. destruct c0 as [c|]; [|reflexivity].
+    rewrite skipn_app, firstn_length_le by apply start_le.
+    replace (start_of tail c - length c) with 0 by (pose proof (start_le tail c); lia). reflexivity.
+Qed.
+
 Section Sound.
 Variable reopen : bool.
 Variable c0 : option bytes.
 Variable tail : bool.
 Let pre := pre_of c0 tail.
 
-Definition nended (s : nstate) : bool := match npcs s with NEnded => true | _ => false end.
-Definition pended (s : pstate) : bool := match ppcs s with PEnded => true | _ => false end.
-Definition termN (b : bool) : N := if b then 1%N else 0%N.
-
 Lemma check_sound_notify tr s :
   run (nstep reopen true) (nok pre) (ninit c0 tail) tr s ->
-  pre ++ ndel s = all (nenv s) ->
+  pre ++ ndel s = want reopen (nenv s) ->
   nended s = negb reopen && removed_b (nenv s) ->
   let i := mkcin false reopen tail c0 (filter is_env tr) in
   C15_check i (ndel s, termN (nended s), tr) = true /\ obs_eqb (model i) (ndel s, termN (nended s), tr) = true.
 Proof.
   intros R Hq He i. pose proof (nrun_spec reopen c0 tail tr s R) as Sp. fold pre in Sp.
-  assert (sDl (nabs pre s) = sE (nabs pre s)) as Hall by (cbn; rewrite <- Hq, skipn_pre; reflexivity).
+  assert (sDl (nabs pre s) = expected i) as Hall.
+  { cbn [sDl nabs]. apply (expected_of_want reopen false c0 tail tr (nenv s)); [| |exact Hq].
+    - intros _. destruct (spec_run_acc _ _ _ _ Sp) as (_ & B & _). symmetry. exact B.
+    - intros _. destruct (track (nstep reopen true) (nok pre) nenv (nstep_env reopen true) _ _ _ R) as [T _].
+      rewrite T. unfold ninit, env0, content, curc. cbn. reflexivity. }
   split.
   - apply (check_of_spec i tr (nabs pre s)); auto.
   - apply (model_of_spec i tr (nabs pre s)); auto.
@@ -94,14 +167,18 @@ Qed.
 
 Hypothesis new_ok : c0 = None -> reopen = true.
 Lemma check_sound_poll tr s :
-  run (pstep reopen) (pok pre) (pinit c0 tail) tr s ->
-  pre ++ pdel s = all (penv s) ->
+  run (pstep reopen true) (pok pre) (pinit c0 tail) tr s ->
+  pre ++ pdel s = want reopen (penv s) ->
   pended s = negb reopen && removed_b (penv s) ->
   let i := mkcin true reopen tail c0 (filter is_env tr) in
   C15_check i (pdel s, termN (pended s), tr) = true /\ obs_eqb (model i) (pdel s, termN (pended s), tr) = true.
 Proof.
   intros R Hq He i. pose proof (prun_spec reopen c0 tail new_ok tr s R) as Sp. fold pre in Sp.
-  assert (sDl (pabs pre s) = sE (pabs pre s)) as Hall by (cbn; rewrite <- Hq, skipn_pre; reflexivity).
+  assert (sDl (pabs pre s) = expected i) as Hall.
+  { cbn [sDl pabs]. apply (expected_of_want reopen true c0 tail tr (penv s)); [| |exact Hq].
+    - intros _. destruct (spec_run_acc _ _ _ _ Sp) as (_ & B & _). symmetry. exact B.
+    - intros _. destruct (track (pstep reopen true) (pok pre) penv (pstep_env reopen true) _ _ _ R) as [T _].
+      rewrite T. unfold pinit, env0, content, curc. cbn. reflexivity. }
   split.
   - apply (check_of_spec i tr (pabs pre s)); auto.
   - apply (model_of_spec i tr (pabs pre s)); auto.
